@@ -1272,7 +1272,7 @@ def emit_enc(sh, prop="C10", want_bytes=True, want_len=True, level="body"):
     return fn, "\n".join(lines) + "\n", b.wbytes, unwind, meta
 
 
-def _prelude(sh, fn, assume_valid=False, tail=0):
+def _prelude(sh, fn, assume_valid=False, tail=0, tail_bytes=None):
     b = sh.b
     lines = ["pub fn %s(s: &mut Src) {" % fn]
     lines += ["    " + d for d in b.draws]
@@ -1284,7 +1284,10 @@ def _prelude(sh, fn, assume_valid=False, tail=0):
             if expr != "true":
                 lines.append("    vassume!(%s);" % expr)
     cells = ["0x%02x" % x for x in sh.header] + b.cells
-    if tail:
+    if tail and tail_bytes is not None:
+        # the next packet's first bytes as literal cells (a decoder that over-reads then stays concrete)
+        cells += ["0x%02x" % x for x in tail_bytes]
+    elif tail:
         lines.append("    let tail: [u8; %d] = s.bytes();" % tail)
         cells += ["tail[%d]" % i for i in range(tail)]
     lines.append("    let frame: [u8; %d] = [%s];" % (len(cells), ", ".join(cells)))
@@ -1292,7 +1295,7 @@ def _prelude(sh, fn, assume_valid=False, tail=0):
     return lines
 
 
-def emit_agree(sh, tail=2):
+def emit_agree(sh, tail=2, tail_bytes=None):
     """C06 / C08: the three front-ends on `frame ++ tail` (tail = symbolic bytes of the next packet).
     Packets are compared through the spec-side field checks and errors through a compact code, not
     through the derived `==` (which explores every variant pair of two symbolic-variant values)."""
@@ -1302,8 +1305,8 @@ def emit_agree(sh, tail=2):
     H = len(sh.header)
     BL = sh.body_len
     ec = "err_code3" if fam == "v3" else "err_code5"
-    fn = "%s_%s__agree" % (fam, sh.name)
-    lines = _prelude(sh, fn, tail=tail)
+    fn = "%s_%s__agree%s" % (fam, sh.name, "_ct" if tail_bytes is not None else "")
+    lines = _prelude(sh, fn, tail=tail, tail_bytes=tail_bytes)
 
     def fields(var, who, ind):
         out = []
